@@ -71,6 +71,13 @@ func cmdJob(args []string) {
 		res = codec.Run(*uni, *tier, *deadline)
 	case *prop == "C19":
 		res = runC19(*uni, *tier)
+	case *prop == "C17":
+		u, err := hist.FindUniverse("C17", *tier, *uni)
+		if err != nil {
+			fmt.Fprintln(os.Stderr, err)
+			os.Exit(2)
+		}
+		res = hist.ExploreHeap(u, *tier, *deadline)
 	case *prop == "C12":
 		sp := hist.FindProduct(*uni)
 		if sp == nil {
@@ -121,6 +128,20 @@ func cmdReplay(args []string) {
 	if err := json.Unmarshal(b, &v); err != nil {
 		fmt.Fprintln(os.Stderr, err)
 		os.Exit(2)
+	}
+	if v.Property == "C17" {
+		u, err := hist.FindUniverse("C17", v.Tier, v.Universe)
+		if err != nil {
+			fmt.Fprintln(os.Stderr, err)
+			os.Exit(2)
+		}
+		v2 := hist.ReplayHeap(u, v.Path)
+		if v2 == nil {
+			fmt.Println("NOT REPRODUCED: retained heap stays bounded on this state now")
+			os.Exit(0)
+		}
+		fmt.Printf("REPRODUCED C17: %s\n  expected: %s\n  observed: %s\n", v2.What, v2.Expected, v2.Observed)
+		os.Exit(1)
 	}
 	if v.Property == "C12" {
 		sp := hist.FindProduct(v.Universe)
